@@ -1,11 +1,253 @@
 import GoguVerif.Go.Run
-/-! Driver wiring for C11 (stub — to be filled in). -/
+import GoguVerif.Spec.C11
+import GoguVerif.Model.C11
+/-!
+# Driver wiring for C11
+
+`CASE c11 int|str`; one line per call (see `harness/k_c11_test.go` for the protocol).  For every
+line: the model's answer (correspondence) and the monitor's verdict on the implementation's answer.
+-/
 namespace GoguVerif.Kinds.C11
 open GoguVerif
+open GoguVerif.Spec.C11 (Nested)
+
+/-- element type as it travels on the wire, with the key-function family of that type -/
+structure Codec (α : Type) where
+  dec : Val → Option α
+  enc : α → Val
+  le  : α → α → Bool
+  fn  : String → Option (α → α)
+
+def intFn : String → Option (Int → Int)
+  | "f0" => some fun x => x
+  | "f1" => some fun x => Int.tmod x 2
+  | "f2" => some fun x => Int.tdiv x 2
+  | "f3" => some fun _ => 0
+  | "f4" => some fun x => -x
+  | "f5" => some fun x => x * x
+  | _ => none
+
+def intCodec : Codec Int where
+  dec := Val.int?
+  enc := Val.int
+  le := fun a b => decide (a ≤ b)
+  fn := intFn
+
+/-- Go's `<=` on strings: byte-wise lexicographic -/
+def bytesLe : List UInt8 → List UInt8 → Bool
+  | [], _ => true
+  | _ :: _, [] => false
+  | a :: x, b :: y => a < b || (a == b && bytesLe x y)
+
+def strFn : String → Option (List UInt8 → List UInt8)
+  | "g0" => some fun x => x
+  | "g1" => some fun x => if x.length > 1 then x.take 1 else x
+  | "g2" => some fun x => if x.length > 0 then x.drop 1 else x
+  | "g3" => some fun _ => []
+  | _ => none
+
+def strCodec : Codec (List UInt8) where
+  dec := Val.bytes?
+  enc := Val.ofBytes
+  le := bytesLe
+  fn := strFn
+
+section
+variable {α : Type} [DecidableEq α] (c : Codec α)
+
+def decList : Val → Option (List α)
+  | .list l => l.mapM c.dec
+  | _ => none
+
+def decLists : Val → Option (List (List α))
+  | .list l => l.mapM (decList c)
+  | _ => none
+
+def encList (l : List α) : Val := .list (l.map c.enc)
+
+partial def decNested (v : Val) : Option (Nested α) :=
+  match v with
+  | .list (.atom "s" :: items) => (items.mapM c.dec).map .slice
+  | .list items => (items.mapM decNested).map .list
+  | .atom "bad0" => some .bad
+  | .atom "bad1" => some .bad
+  | .atom "bad2" => some .bad
+  | .atom "bad3" => some .bad
+  | v => (c.dec v).map .leaf
+
+/-- the tree holds a typed nesting `[][]T` (`bad3`): the statement does not say whether that counts
+as "nested slices" or as malformed input, so the monitor gives no verdict on such a call (the model
+still predicts what the code does today: an error) -/
+partial def hasTypedNesting : Val → Bool
+  | .list items => items.any hasTypedNesting
+  | .atom "bad3" => true
+  | _ => false
+
+def decPair : Val → Option (α × Nat)
+  | .list [k, .int i] => if i < 0 then none else (c.dec k).map fun k => (k, i.toNat)
+  | _ => none
+
+def encPair (p : α × Nat) : Val := .list [c.enc p.1, .int p.2]
+
+def hasRepeat (s : List α) : Bool := decide (Spec.C11.firstOccs s ≠ s)
+
+/-- shape of the evidence for a function with a first argument `s`, reference answer `want` -/
+def filt (s want : List α) : Bool :=
+  hasRepeat s && !want.isEmpty && decide (want ≠ Spec.C11.firstOccs s)
+
+def stepWith (l : Line) : Step Unit :=
+  let bad (why : String) : Step Unit := { st := (), bad := some s!"c11 {l.op}: {why}" }
+  -- list-valued answer of the implementation; `panic` / `hang` are violations on every input of the domain
+  let judgeList (modelAns : List α) (tags : List String) (nontrivial : Bool)
+      (verdict : List α → Option String) : Step Unit :=
+    match l.res with
+    | [.atom "panic"] => { st := (), model := some [encList c modelAns], spec := some s!"no-panic:{l.op}", tags := tags }
+    | [.atom "hang"] => { st := (), model := some [encList c modelAns], spec := some s!"terminates:{l.op}", tags := tags }
+    | [r] =>
+      match decList c r with
+      | none => bad "result"
+      | some r => { st := (), model := some [encList c modelAns], spec := verdict r, tags := tags, nontrivial := nontrivial }
+    | _ => bad "result"
+  let exact (want : List α) (clause : String) : List α → Option String :=
+    fun r => if r = want then none else some clause
+  let by_ (cond : α → Bool) (s : List α) (name : String) : List α → Option String :=
+    fun r =>
+      if !r.isSublist s then some s!"{name}:subsequence-of-first-argument"
+      else if !r.all cond then some s!"{name}:kept-element-fails-image-condition"
+      else if !Spec.C11.byCheck cond s r then some s!"{name}:qualifying-element-missing"
+      else none
+  match l.op, l.args with
+  | "unique", [s] =>
+    match decList c s with
+    | none => bad "args"
+    | some s =>
+      let want := Spec.C11.uniqueRef s
+      judgeList (Model.C11.unique s) ["unique"] (s.length ≥ 3 && hasRepeat s && want.length ≥ 2)
+        (exact want "unique:first-occurrences-in-order")
+  | "uniqueby", [.atom f, s] =>
+    match c.fn f, decList c s with
+    | some f, some s =>
+      let want := Spec.C11.uniqueByRef f s
+      judgeList (Model.C11.uniqueBy s f) ["uniqueby"]
+        (want.length ≥ 2 && decide (want ≠ Spec.C11.firstOccs s))
+        (exact want "uniqueby:first-element-of-each-image")
+    | _, _ => bad "args"
+  | "dup", [s] =>
+    match decList c s with
+    | none => bad "args"
+    | some s =>
+      let m := (Model.C11.duplicate s).mergeSort c.le
+      judgeList m ["dup"] (!m.isEmpty && m.length < (Spec.C11.firstOccs s).length)
+        (fun r => if Spec.C11.dupCheck s r then none else some "duplicate:exactly-the-repeated-values-once")
+  | "dupidx", [s] =>
+    match decList c s with
+    | none => bad "args"
+    | some s =>
+      let m := (Model.C11.duplicateWithIndex s).mergeSort (fun a b => c.le a.1 b.1)
+      let modelAns : List Val := [.list (m.map (encPair c))]
+      let tags := ["dupidx"]
+      match l.res with
+      | [.atom "panic"] => { st := (), model := some modelAns, spec := some "no-panic:dupidx", tags := tags }
+      | [.atom "hang"] => { st := (), model := some modelAns, spec := some "terminates:dupidx", tags := tags }
+      | [.list r] =>
+        match r.mapM (decPair c) with
+        | none => { st := (), model := some modelAns, spec := some "duplicatewithindex:first-index", tags := tags }
+        | some r =>
+          { st := (), model := some modelAns, tags := tags
+            nontrivial := !m.isEmpty && m.any (fun p => p.2 > 0) && m.length < (Spec.C11.firstOccs s).length
+            spec := if Spec.C11.dupIdxCheck s r then none else some "duplicatewithindex:first-index" }
+      | _ => bad "result"
+  | "union", [nv] =>
+    match decNested c nv with
+    | none => bad "args"
+    | some n =>
+      let modelAns : List Val := match Model.C11.union n with
+        | none => [.atom "err", .list []]
+        | some r => [.atom "ok", encList c r]
+      let want := Spec.C11.unionRef n
+      let typed := hasTypedNesting nv
+      let tags := ["union", if want.isNone then "union:malformed" else "union:wellformed", s!"union:depth{min n.depth 4}"]
+        ++ (if typed then ["union:typed-nesting"] else [])
+      let nontrivial := n.depth ≥ 2 && (match want with
+        | none => !n.leaves.isEmpty
+        | some w => w.length ≥ 2 && w.length < n.leaves.length)
+      match l.res with
+      | [.atom "panic"] => { st := (), model := some modelAns, spec := some "no-panic:union", tags := tags }
+      | [.atom "hang"] => { st := (), model := some modelAns, spec := some "terminates:union", tags := tags }
+      | [.atom e, r] =>
+        match decList c r with
+        | none => bad "result"
+        | some r =>
+          let isErr := e == "err"
+          let clause :=
+            if typed || Spec.C11.unionCheck n isErr r then none
+            else match want with
+              | none => some "union:malformed-nesting-yields-error"
+              | some _ => if isErr then some "union:error-on-well-formed-input" else some "union:unique-of-flattening"
+          { st := (), model := some modelAns, spec := clause, tags := tags, nontrivial := nontrivial }
+      | _ => bad "result"
+  | "inter", [ps] =>
+    match decLists c ps with
+    | none => bad "args"
+    | some [] =>
+      -- no argument at all: outside the property's domain (tuples of 1..3 slices); the code panics
+      -- on `params[0]`, the model predicts it, the monitor is silent
+      { st := (), model := some [.atom "panic"], tags := ["inter:no-argument"] }
+    | some (s :: others) =>
+      match Model.C11.intersection (s :: others) with
+      | .panic => { st := (), model := some [.atom "panic"], spec := some "no-panic:inter" }
+      | .ok m =>
+        let want := Spec.C11.interRef s others
+        judgeList m ["inter", s!"inter:k{min (others.length + 1) 4}"] (filt s want)
+          (exact want "intersection:distinct-values-of-first-in-all-others")
+  | "interby", [.atom f, ps] =>
+    match c.fn f, decLists c ps with
+    | some _, some [] => { st := (), model := some [.atom "panic"], tags := ["interby:no-argument"] }
+    | some f, some (s :: others) =>
+      match Model.C11.intersectionBy f (s :: others) with
+      | .panic => { st := (), model := some [.atom "panic"], spec := some "no-panic:interby" }
+      | .ok m =>
+        let cond := Spec.C11.interByCond f others
+        let want := Spec.C11.firstOccs (s.filter cond)
+        judgeList m ["interby", s!"interby:k{min (others.length + 1) 4}"]
+          (filt s want && decide (want ≠ Spec.C11.interRef s others))
+          (by_ cond s "intersectionby")
+    | _, _ => bad "args"
+  | "diff", [s, t] =>
+    match decList c s, decList c t with
+    | some s, some t =>
+      let want := Spec.C11.diffRef s t
+      judgeList (Model.C11.difference s t) ["diff"] (filt s want)
+        (exact want "difference:distinct-values-of-first-not-in-second")
+    | _, _ => bad "args"
+  | "without", [s, t] =>
+    match decList c s, decList c t with
+    | some s, some t =>
+      let want := Spec.C11.diffRef s t
+      judgeList (Model.C11.without s t) ["without"] (filt s want)
+        (exact want "without:distinct-values-of-first-not-listed")
+    | _, _ => bad "args"
+  | "diffby", [.atom f, s, t] =>
+    match c.fn f, decList c s, decList c t with
+    | some f, some s, some t =>
+      let cond := Spec.C11.diffByCond f t
+      let want := Spec.C11.firstOccs (s.filter cond)
+      judgeList (Model.C11.differenceBy s t f) ["diffby"]
+        (filt s want && decide (want ≠ Spec.C11.diffRef s t))
+        (by_ cond s "differenceby")
+    | _, _, _ => bad "args"
+  | _, _ => bad "unknown op or arity"
+
+end
 
 def kind : Kind where
-  σ := Unit
-  init := fun _ => some ()
-  step := fun st l => { st := st, bad := some s!"C11: kind not implemented ({l.op})" }
+  σ := Bool
+  init := fun ps => match ps with
+    | [.atom "int"] => some false
+    | [.atom "str"] => some true
+    | _ => none
+  step := fun st l =>
+    let r := if st then stepWith strCodec l else stepWith intCodec l
+    { r with st := st }
 
 end GoguVerif.Kinds.C11
